@@ -117,6 +117,17 @@ func runResize(rep *Report) {
 			// after a shrink the commit releases the end of the file
 			p.Overflow, p.KeepFill, p.FreeTop, p.FreePct, p.BigAlloc = 70, 95, 60, 30, 30
 		}
+		faulty := i%8 == 5
+		if faulty {
+			// the limit of a preallocated file is lowered below its size while an I/O call inside that Open fails
+			cfg.Prealloc = true
+			if min := uint64(65536 / cfg.PageSize); cfg.MaxPages < min+24 {
+				cfg.MaxPages = min + 24 + uint64(r.Intn(40))
+			}
+			if uint64(cfg.InitMeta) >= cfg.MaxPages-2 {
+				cfg.InitMeta = 4
+			}
+		}
 		s := engine.NewSession(cfg)
 		if s.Open() == "ok" {
 			rounds := 4
@@ -129,6 +140,14 @@ func runResize(rep *Report) {
 				s.Continue(r, q)
 				if s.F == nil {
 					break
+				}
+				if faulty {
+					if k == 0 {
+						if !s.ShrinkUnderFault(r, true, "C14") {
+							break
+						}
+					}
+					continue
 				}
 				if i%3 == 2 && k%2 == 1 {
 					s.FillAndOverflow(r) // a full file with meta pages beyond its limit, then the limit changes
